@@ -53,11 +53,14 @@ def compressible(path):
 
 def make(seed, quick):
     """-> (pairs [(plain font, compressed variant, text file)], mustfail [paths], stats)"""
-    outdir = os.path.join(build.WORK, 'lz', 'lz-%d-%s' % (seed, 'q' if quick else 't'))
+    outdir = os.path.join(build.WORK, 'lz', 'lz-%d-%s-%s' % (seed, 'q' if quick else 't', synthwork.code_hash()))
+    synthwork._prune(os.path.join(build.WORK, 'lz'))
     marker = os.path.join(outdir, 'done.txt')
     if os.path.exists(marker):
         import json
-        return json.load(open(marker))
+        info = json.load(open(marker))
+        if all(os.path.exists(a) and os.path.exists(b) for a, b, _ in info['pairs']) and all(os.path.exists(m) for m in info['mustfail']):
+            return info
     tmp = outdir + '.tmp%d' % os.getpid()
     shutil.rmtree(tmp, ignore_errors=True)
     os.makedirs(tmp)
